@@ -202,7 +202,10 @@ def geometric_knn_entropy(X, Xdist, k=1):
             # Singular value ratio term with safety checks
             sing_ratio_sum = 0.0
             if len(sing_Yi) > 0 and sing_Yi[0] > 1e-12:
-                for l in range(min(d, len(sing_Yi))):
+                # the centred neighbourhood of k+1 points has rank at most k: further singular values are
+                # zero up to rounding noise (which an absolute guard cannot recognise for float32 data or
+                # large offsets) and carry no information
+                for l in range(min(d, len(sing_Yi), k)):
                     if l < len(sing_Yi) and sing_Yi[l] > 1e-12:
                         ratio = sing_Yi[l] / sing_Yi[0]
                         if ratio > 1e-12:
